@@ -50,6 +50,8 @@ ASSUMPTIONS = [
     'a zero before the decimal point is optional (GW-BASIC shows it only if there is room)',
     'rounding: |shown - stored| <= half a unit of the last shown digit (or of the 7th / 16th significant digit if the '
     'field asks for more digits than the type has) + one binary ulp ("within the accuracy of decimal conversion")',
+    'in a ^^^^ field one position before the point is kept for the sign unless the field has a sign position or a $ '
+    '(manual / GW-BASIC corpus): with a place for the sign a number always fits, so % is not accepted there',
     'exponent letter E or D both accepted; a negative value shown as zero may or may not carry its sign',
     'scientific notation with no digit at all (zero, or a field with at most one position before the point and no '
     'decimals, e.g. "#^^^^") is what GW-BASIC prints (tests/basic/gwbasic/PRINT_USING_scientific); accepted',
